@@ -28,8 +28,24 @@ import (
 )
 
 var dirs = []string{
-	".", "internal/common", "internal/shell", "internal/shell/zsh", "internal/shell/bash", "internal/export",
+	".", "internal/common", "internal/shell", "internal/shell/zsh", "internal/shell/bash", "internal/shell/nushell", "internal/shell/cmd_clink", "internal/export",
 	"internal/cache", "pkg/cache", "pkg/cache/key", "pkg/match", "internal/pflagfork", "internal/env", "internal/config",
+}
+
+// the files in which the completion entry point does index arithmetic on user text (C18)
+var sliceFiles = map[string]bool{
+	"complete.go": true, "command.go": true, "traverse.go": true, "internal/shell/bash/patch.go": true,
+	"internal/shell/cmd_clink/patch.go": true, "internal/shell/nushell/patch.go": true,
+	"internal/shell/zsh/namedDirectory.go": true, "pkg/match/match.go": true, "internal/pflagfork/flagset.go": true,
+}
+
+// the functions whose branch conditions guard that arithmetic
+var guardFuncs = map[string]bool{
+	"complete.go:complete": true, "internal/shell/bash/patch.go:CompLine": true, "internal/shell/bash/patch.go:Patch": true,
+	"internal/shell/cmd_clink/patch.go:Patch": true, "internal/shell/nushell/patch.go:Patch": true,
+	"pkg/match/match.go:Match.TrimPrefix": true, "internal/shell/zsh/namedDirectory.go:namedDirectories.match": true,
+	"internal/shell/zsh/namedDirectory.go:namedDirectories.Replace": true,
+	"internal/pflagfork/flagset.go:FlagSet.lookupPosixShorthandArg": true,
 }
 
 func bytesLit(s string) string {
@@ -59,7 +75,7 @@ func main() {
 		os.Exit(2)
 	}
 	repo := os.Args[1]
-	var mapRange, captured, goStmt, fileWrite, indexWrite, invokeCalls inv
+	var mapRange, captured, goStmt, fileWrite, indexWrite, invokeCalls, sliceSites, guardSites inv
 	for _, d := range dirs {
 		fset := token.NewFileSet()
 		pkgs, err := parser.ParseDir(fset, filepath.Join(repo, d), func(fi os.FileInfo) bool {
@@ -297,6 +313,30 @@ func main() {
 								}
 							case *ast.SelectStmt:
 								goStmt.add(where + depth(lits) + ": select")
+							case *ast.IfStmt:
+								if guardFuncs[where] {
+									guardSites.add(where + ": if " + src(fset, v.Cond))
+								}
+							case *ast.CaseClause:
+								if guardFuncs[where] {
+									for _, e := range v.List {
+										guardSites.add(where + ": case " + src(fset, e))
+									}
+								}
+							case *ast.ForStmt:
+								if guardFuncs[where] && v.Cond != nil {
+									guardSites.add(where + ": for " + src(fset, v.Cond))
+								}
+							case *ast.SliceExpr:
+								if sliceFiles[rel] {
+									sliceSites.add(where + ": " + src(fset, v))
+								}
+							case *ast.IndexExpr:
+								if sliceFiles[rel] {
+									if nm := lastName(v.X); !(nm != "" && mapNames[nm] && !notMap[nm]) {
+										sliceSites.add(where + ": " + src(fset, v))
+									}
+								}
 							case *ast.CallExpr:
 								s := src(fset, v.Fun)
 								if fname == "Action.Invoke" {
@@ -333,7 +373,7 @@ func main() {
 			if k == len(i.items)-1 {
 				sep = ""
 			}
-			out.WriteString("  " + bytesLit(s) + sep + "  (* " + strings.ReplaceAll(s, "*)", "* )") + " *)\n")
+			out.WriteString("  " + bytesLit(s) + sep + "  (* " + strings.ReplaceAll(strings.ReplaceAll(s, "*)", "* )"), "\"", "''") + " *)\n")
 		}
 		out.WriteString("].\n\n")
 	}
@@ -343,6 +383,8 @@ func main() {
 	emit("file_write_sites", fileWrite)
 	emit("index_write_sites", indexWrite)
 	emit("invoke_call_sites", invokeCalls)
+	emit("slice_sites", sliceSites)
+	emit("guard_sites", guardSites)
 	old, _ := os.ReadFile(os.Args[2])
 	if string(old) != out.String() {
 		if err := os.WriteFile(os.Args[2], []byte(out.String()), 0o644); err != nil {
